@@ -145,7 +145,7 @@ func (s *Stump) add(adds []Hash) ([]Hash, []uint64, []uint64) {
 	// allDeleted is all the empty roots that get deleted by the additions.
 	allDeleted := rootsToDestory(uint64(len(adds)), s.NumLeaves, s.Roots)
 
-	updatedNodes := make(map[Hash]uint64, len(adds))
+	updatedNodes := make(map[uint64]Hash, len(adds))
 	for i, add := range adds {
 		pos := s.NumLeaves
 
@@ -194,8 +194,8 @@ func (s *Stump) add(adds []Hash) ([]Hash, []uint64, []uint64) {
 			// |---\   |---\   |---\
 			// 00  01  02  03  --  --
 			if root != empty {
-				updatedNodes[root] = leftSib(pos)
-				updatedNodes[newRoot] = pos
+				updatedNodes[leftSib(pos)] = root
+				updatedNodes[pos] = newRoot
 
 				// Calculate the hash of the new root and append it.
 				newRoot = parentHash(root, newRoot)
@@ -206,7 +206,7 @@ func (s *Stump) add(adds []Hash) ([]Hash, []uint64, []uint64) {
 		// A leaf that didn't get hashed with any root is a root by itself.
 		// Record it as well so that every added leaf has its position.
 		if newRoot == add {
-			updatedNodes[add] = pos
+			updatedNodes[pos] = add
 		}
 
 		s.Roots = append(s.Roots, newRoot)
@@ -215,7 +215,7 @@ func (s *Stump) add(adds []Hash) ([]Hash, []uint64, []uint64) {
 
 	// Turn the map into slices.
 	updated := hashAndPos{make([]uint64, 0, len(updatedNodes)), make([]Hash, 0, len(updatedNodes))}
-	for hash, pos := range updatedNodes {
+	for pos, hash := range updatedNodes {
 		updated.Append(pos, hash)
 	}
 
